@@ -1,5 +1,5 @@
 """C08 - chain reduction: structure of one reduction step and of the Schur transfer maps (values NOT decided)."""
-import e17_schur, e18_reducer, e8b_matrix, e2_float
+import e17_schur, e18_reducer, e8b_matrix, e2_float, e5_locks
 
 LEVEL = 'other'
 EXPLANATION = ('One step of ChainReducer replaces d_i by the Schur complement of a permuted partially triangular block and must update the '
@@ -30,4 +30,5 @@ def run(ctx, rep):
     e18_reducer.run(facts, rep)
     e18_reducer.check_complex_glue(facts, rep)
     e8b_matrix.check_trans_order(facts, rep)
+    e5_locks.check_candidate_predicate(facts, rep)
     e2_float.apply(facts, rep, scope, 'C08', floor_scope=40)
